@@ -89,7 +89,8 @@ func VH_C05_udp_domain() {
 	key := verifKey(specs[0].cipher, verifSecrets[specs[0].secret])
 	h := NewPacketHandler(defaultNatTimeout, cl, &verifUDPMetrics{}, nil)
 	client := &verifPacketConn{name: "client"}
-	name := []byte{3, 3, 'a', 'b', 'c', 0, 53, 'q'}
+	// "localhost" resolves (to loopback) without a network, so violations replay natively
+	name := []byte{3, 9, 'l', 'o', 'c', 'a', 'l', 'h', 'o', 's', 't', 0, 53, 'q'}
 	empty := []byte{3, 0, 0, 53, 'q'} // empty domain name
 	first := name
 	if verifFlag("first-empty") {
